@@ -82,6 +82,10 @@ def cases(tier):
             yield Case("sh:N=%d:%s" % (N, tag), {"kind": "sh", "N": N, "t": t})
     for N in _ladder(tier):
         yield Case("ladder:N=%d" % N, {"kind": "ladder", "N": N})
+    # the zero-frequency clause alone is cheap, so it is decided for EVERY even N up to a much larger bound
+    top = 512 if tier == "quick" else 1536
+    for lo in range(2, top + 1, 32):
+        yield Case("dc:N=%d-%d" % (lo, min(lo + 30, top)), {"kind": "dc", "lo": lo, "hi": min(lo + 30, top)})
 
 
 def setup(tier):
@@ -139,6 +143,8 @@ def evaluate(p):
     o = Out()
     if p["kind"] == "ladder":
         return _ladder_case(o, ps, p["N"])
+    if p["kind"] == "dc":
+        return _dc_case(o, ps, p["lo"], p["hi"])
     N, t = p["N"], p["t"]
     delta, r0, L0, l0 = t
     n2 = N * N
@@ -296,3 +302,36 @@ LEVEL_NOTE = ("Trusted: numpy matrix arithmetic, the PSD/covariance reference (m
               "integer-seed coupling of the two generators in the sub-harmonic variant (observation only), the "
               "exact sub-harmonic weights (the statement only requires added low-frequency power; their "
               "agreement with the Lane/Schmidt scheme is recorded as an observation).")
+
+
+def _dc_case(o, ps, lo, hi):
+    """'with the zero frequency removed', for every even N of the range: a unit draw on the zero-frequency
+    coefficient (real part, imaginary part) contributes nothing, and the screen of a dense draw vector has zero
+    spatial mean; a unit draw on the neighbouring coefficient does contribute (the probe is not vacuous).
+    (Added after a seeded change left the DC term in for N = 98, 196, 206, ... only.)"""
+    from mc.env import SeqGenerator
+    delta, r0, L0, l0 = 0.1, 0.2, 25.0, 0.01
+    for N in range(lo, hi + 1, 2):
+        c = N // 2
+        n2 = N * N
+
+        def screen(vec):
+            return numpy.asarray(ps.ft_phase_screen(r0, N, delta, L0, l0, seed=SeqGenerator(vec)))
+        for part, off in (("re", 0), ("im", n2)):
+            v = numpy.zeros(2 * n2)
+            v[off + c * N + c] = 1.0
+            s = screen(v)
+            o.stat("lib_calls", 1)
+            o.check("zero_frequency_draw_contributes_nothing", s.shape == (N, N) and bool(numpy.all(s == 0.0)),
+                    sub="N=%d:%s" % (N, part), measure=_maxabs(s), tol=0.0)
+        v = numpy.zeros(2 * n2)
+        v[c * N + (c + 1) % N] = 1.0
+        s1 = screen(v)
+        dense = screen(((numpy.arange(2 * n2) * 7) % 11 - 5.0) / 5.0)
+        o.stat("lib_calls", 2)
+        if N > 2:
+            o.check("neighbouring_draw_contributes", _maxabs(s1) > 0.0, sub="N=%d" % N)
+        scale = max(_maxabs(dense), 1e-300)
+        o.close("dense_screen_has_zero_mean", abs(float(dense.mean())) / scale, 1e-10, sub="N=%d" % N)
+    o.stat("nontrivial", (hi - lo) // 2 + 1)
+    return o
